@@ -47,7 +47,7 @@ chunks.__class__.size = 2048 # Samples
 
 
 @chunks.strategy("struct")
-def chunks(seq, size=None, dfmt="f", byte_order=None, padval=0.):
+def chunks(seq, size=None, dfmt="f", byte_order=None, padval=0):
   """
   Chunk generator based on the struct module (Python standard library).
 
@@ -92,7 +92,7 @@ def chunks(seq, size=None, dfmt="f", byte_order=None, padval=0.):
 
 
 @chunks.strategy("array")
-def chunks(seq, size=None, dfmt="f", byte_order=None, padval=0.):
+def chunks(seq, size=None, dfmt="f", byte_order=None, padval=0):
   """
   Chunk generator based on the array module (Python standard library).
 
